@@ -9,11 +9,14 @@ for d in sorted(glob.glob('/verif/seeded/*-*')):
     res = open(d + '/result.txt').read().strip().split('\n') if os.path.exists(d + '/result.txt') else []
     caught = [re.search(r'check=(\S+)', l).group(1) for l in res if ' CAUGHT' in l]
     missed = [re.search(r'check=(\S+)', l).group(1) for l in res if ' missed' in l]
-    m['confirmed'] = 'suite passes with the change; demonstration fails with it and passes without it (tools/seedtest, scratch worktree)'
+    m['confirmed'] = 'suite passes with the change; demonstration fails with it and passes without it (tools/seedconfirm in the worktree of its author; tools/seedreconfirm against the repaired tree)'
     m['caught_by'] = caught
-    m['ran'] = ['./check %s quick with the patch applied to /repo (tools/seedmatrix), /repo restored afterwards' % c for c in caught + missed]
+    m['ran'] = ['./check %s quick against a scratch worktree of /repo HEAD with the patch applied (tools/seedmatrixpar / tools/seedpar)' % c for c in caught + missed]
     json.dump(m, open(d + '/meta.json', 'w'), indent=1)
-    rows.append((name, m.get('summary', '')[:150].replace('\n', ' ').replace('|', '/'), m.get('needs', '')[:150].replace('\n', ' ').replace('|', '/'), ', '.join(caught) or '**missed**'))
+    verdict = ', '.join(caught) or '**missed**'
+    if m.get('status') == 'neutralised':
+        verdict = 'neutralised by a later fix (not counted)'
+    rows.append((name, m.get('summary', '')[:150].replace('\n', ' ').replace('|', '/'), m.get('needs', '')[:150].replace('\n', ' ').replace('|', '/'), verdict))
 print('| seed | change | needs | caught by |\n|---|---|---|---|')
 for r in rows:
     print('| %s | %s | %s | %s |' % r)
